@@ -6,6 +6,7 @@ package oxsim
 // size) and the oracles it evaluates.
 
 import (
+	"errors"
 	"fmt"
 	"sort"
 	"strings"
@@ -19,6 +20,7 @@ import (
 
 	"github.com/oxia-db/oxia/coordinator/model"
 	"github.com/oxia-db/oxia/proto"
+	"github.com/oxia-db/oxia/server/kv"
 	"github.com/oxia-db/oxia/server/wal"
 )
 
@@ -79,6 +81,7 @@ type chaosOpts struct {
 	CheckLinearizability bool
 	WriteHeavy  bool
 	ReadPct     int
+	TermStoreErrPct int // chance (percent) that storing a new term fails at a node (the engine returns an error)
 	LeaderHunt  int // cut off up to this many freshly installed leaders per shard from their peers (clients still reach them)
 }
 
@@ -140,6 +143,17 @@ func newChaos(r *Run, o chaosOpts) *chaos {
 		c.spares = []string{spare}
 	}
 	c.mon = newMonitors(c)
+	if o.TermStoreErrPct > 0 {
+		tg := NewRng(r.Seed, "term-store-fault")
+		pct := o.TermStoreErrPct
+		kv.SimTermStoreFault = func(shard int64, term int64) error {
+			if !tg.Chance(pct) {
+				return nil
+			}
+			r.Count("fault_term_store_error", 1)
+			return errors.New("oxsim: injected engine error while storing the term")
+		}
+	}
 	if o.MetaFail {
 		// Store *errors* are not injected: resources.status logs through a nil embedded
 		// *slog.Logger in its retry path, so the first failed Store panics the coordinator
@@ -747,6 +761,7 @@ func rotate(s []string, k int) []string {
 
 func (c *chaos) finish() {
 	c.w.Net.Tap = nil
+	kv.SimTermStoreFault = nil
 	c.r.Sample = map[string]any{"plan": c.plan, "ops": len(c.hist)}
 	c.r.Sig(strings.Join(sigOfPlan(c.plan), ";") + c.mon.sig())
 	if len(c.plan) > 0 && c.r.Stat("ops_ok") > 5 {
